@@ -121,10 +121,11 @@ pub fn apply(src: &str, pat: &str, rep: &str) -> Result<(String, usize), String>
     search(&pv, &sv, &mut ms);
     let mut out = String::new();
     let mut pos = 0;
-    for m in &ms {
+    for (ord, m) in ms.iter().enumerate() {
         out.push_str(&src[pos..m.range.start]);
-        // replacement with captures (longest index first so __10 is not eaten by __1)
-        let mut r = rep.to_string();
+        // replacement with captures (longest index first so __10 is not eaten by __1);
+        // `__ORD` is the 1-based ordinal of this match in textual order (rule R18)
+        let mut r = rep.replace("__ORD", &format!("{}", ord + 1));
         for ci in (0..m.caps.len()).rev() {
             if let Some(cr) = &m.caps[ci] {
                 r = r.replace(&format!("__{ci}"), &src[cr.clone()]);
